@@ -567,10 +567,293 @@ theorem mem_flatten_split {α} (l : List (List α)) (x : List α) (h : x ∈ l) 
   obtain ⟨s, t, rfl⟩ := List.append_of_mem h
   exact ⟨s.flatten, t.flatten, by simp⟩
 
-theorem spmCfg_ok (V : Vocab) (c : Cand) (l r : Str) (h : (spmCfg V).ok c l r = true) :
-    (V.tokId (l ++ r)).isSome = true := by
-  simp only [spmCfg, Bool.and_eq_true] at h
-  exact h.2
+/-! ### binary heap: push/pop only permute / drop entries -/
+
+theorem mem_swapIfInBounds (h : Array Cand) (i j : Nat) (x : Cand) :
+    x ∈ h.swapIfInBounds i j ↔ x ∈ h := by
+  unfold Array.swapIfInBounds
+  split
+  · split
+    · exact (Array.swap_perm _ _).mem_iff
+    · exact Iff.rfl
+  · exact Iff.rfl
+
+theorem mem_heapUp (less : Cand → Cand → Bool) (f : Nat) (h : Array Cand) (j : Nat) (x : Cand) :
+    x ∈ heapUp less f h j ↔ x ∈ h := by
+  induction f generalizing h j with
+  | zero => exact Iff.rfl
+  | succ f ih =>
+    unfold heapUp
+    split
+    · exact Iff.rfl
+    · simp only
+      split
+      · rw [ih, mem_swapIfInBounds]
+      · exact Iff.rfl
+
+theorem mem_heapDown (less : Cand → Cand → Bool) (f : Nat) (h : Array Cand) (i : Nat) (x : Cand) :
+    x ∈ heapDown less f h i ↔ x ∈ h := by
+  induction f generalizing h i with
+  | zero => exact Iff.rfl
+  | succ f ih =>
+    unfold heapDown
+    simp only
+    split
+    · split <;> split <;> first | exact Iff.rfl | (rw [ih, mem_swapIfInBounds])
+    · exact Iff.rfl
+
+theorem mem_heapPush (less : Cand → Cand → Bool) (h : Array Cand) (c x : Cand) :
+    x ∈ heapPush less h c ↔ x ∈ h ∨ x = c := by
+  unfold heapPush
+  simp only
+  rw [mem_heapUp, Array.mem_push]
+
+theorem heapPop_mem (less : Cand → Cand → Bool) (h h' : Array Cand) (c : Cand)
+    (hp : heapPop less h = some (c, h')) : c ∈ h ∧ ∀ x ∈ h', x ∈ h := by
+  unfold heapPop at hp
+  split at hp
+  · cases hp
+  · rename_i hsz
+    simp only [Option.some.injEq, Prod.mk.injEq] at hp
+    obtain ⟨rfl, rfl⟩ := hp
+    constructor
+    · have : 0 < h.size := by omega
+      simp [Array.getD, this]
+    · intro x hx
+      rw [mem_heapDown] at hx
+      have : x ∈ h.swapIfInBounds 0 (h.size - 1) := by
+        have h1 := Array.mem_toList_iff.mpr hx
+        rw [Array.toList_pop] at h1
+        exact Array.mem_toList_iff.mp ((List.dropLast_sublist _).subset h1)
+      exact (mem_swapIfInBounds _ _ _ _).mp this
+
+/-! ## SPM: the size-only staleness test of the Go code suffices -/
+
+theorem joinAt_some (ok : Str → Str → Bool) (ps ps' : List Part) (a b : Nat)
+    (h : joinAt ok ps a b = some ps') :
+    ∃ pre p q rest, ps = pre ++ p :: q :: rest ∧ p.start = a ∧ q.start = b ∧ ok p.runes q.runes = true ∧
+      ps' = pre ++ ({ start := a, runes := p.runes ++ q.runes } : Part) :: rest := by
+  induction ps generalizing ps' with
+  | nil => simp [joinAt] at h
+  | cons p rest ih =>
+    cases rest with
+    | nil => simp [joinAt] at h
+    | cons q rest =>
+      unfold joinAt at h
+      split at h
+      · rename_i hpa
+        split at h
+        · rename_i hq
+          cases h
+          exact ⟨[], p, q, rest, rfl, hpa, hq.1, hq.2, rfl⟩
+        · cases h
+      · simp only [Option.map_eq_some_iff] at h
+        obtain ⟨ps2, h2, rfl⟩ := h
+        obtain ⟨pre, p', q', rest', he, h1, h2', h3, h4⟩ := ih ps2 h2
+        exact ⟨p :: pre, p', q', rest', by rw [he]; rfl, h1, h2', h3, by rw [h4]; rfl⟩
+
+theorem utf8_length_pos (r : Nat) : 0 < (utf8 r).length := by
+  unfold utf8
+  split
+  · simp
+  · split
+    · simp
+    · split <;> simp
+
+theorem utf8s_length_eq_zero (x : Str) (h : (utf8s x).length = 0) : x = [] := by
+  cases x with
+  | nil => rfl
+  | cons r x =>
+    have := utf8_length_pos r
+    have h2 : (utf8s (r :: x)).length = (utf8 r).length + (utf8s x).length := by simp [utf8s]
+    omega
+
+theorem prefix_size_eq (l0 l r0 r : Str) (hl : l0 <+: l) (hr : r0 <+: r)
+    (hs : (utf8s l).length + (utf8s r).length = (utf8s l0).length + (utf8s r0).length) :
+    l = l0 ∧ r = r0 := by
+  obtain ⟨x, rfl⟩ := hl
+  obtain ⟨y, rfl⟩ := hr
+  simp only [utf8s_append, List.length_append] at hs
+  have hx := utf8s_length_eq_zero x (by omega)
+  have hy := utf8s_length_eq_zero y (by omega)
+  simp [hx, hy]
+
+theorem start_unique (ps : List Part) (hn : (ps.map (·.start)).Nodup) (p q : Part)
+    (hp : p ∈ ps) (hq : q ∈ ps) (h : p.start = q.start) : p = q := by
+  induction ps with
+  | nil => cases hp
+  | cons x xs ih =>
+    simp only [List.map_cons, List.nodup_cons, List.mem_map, not_exists, not_and] at hn
+    simp only [List.mem_cons] at hp hq
+    rcases hp with rfl | hp <;> rcases hq with rfl | hq
+    · rfl
+    · exact absurd h.symm (hn.1 q hq)
+    · exact absurd h (hn.1 p hp)
+    · exact ih hn.2 hp hq
+
+theorem getPart_some (ps : List Part) (a : Nat) (l : Part) (h : getPart ps a = some l) :
+    l ∈ ps ∧ l.start = a := by
+  unfold getPart at h
+  exact ⟨List.mem_of_find?_eq_some h, by simpa using List.find?_some h⟩
+
+/-- what a queue entry remembers: it was created from two strings whose join is a token, its recorded
+    size is theirs, and the parts at its two ends (if still live) extend those strings -/
+def CandOk (V : Vocab) (ps : List Part) (c : Cand) : Prop :=
+  ∃ l0 r0, (V.tokId (l0 ++ r0)).isSome = true ∧ c.size = (utf8s l0).length + (utf8s r0).length ∧
+    (∀ p ∈ ps, p.start = c.a → l0 <+: p.runes) ∧ (∀ p ∈ ps, p.start = c.b → r0 <+: p.runes)
+
+def TokOrSingle (V : Vocab) (u : Str) : Prop := (V.tokId u).isSome = true ∨ ∃ r, u = [r]
+
+def SpmInv (V : Vocab) (ps : List Part) (h : Array Cand) : Prop :=
+  (ps.map (·.start)).Nodup ∧ (∀ c ∈ h, CandOk V ps c) ∧ (∀ p ∈ ps, TokOrSingle V p.runes)
+
+theorem pushCand_inv (V : Vocab) (ps : List Part) (h : Array Cand) (x y : Nat) (hi : SpmInv V ps h) :
+    SpmInv V ps (pushCand (spmCfg V) ps h x y) := by
+  obtain ⟨hn, hc, hp⟩ := hi
+  unfold pushCand
+  split
+  · rename_i l r hl hr
+    obtain ⟨hlm, hls⟩ := getPart_some ps x l hl
+    obtain ⟨hrm, hrs⟩ := getPart_some ps y r hr
+    split
+    · rename_i key size value hmk
+      refine ⟨hn, ?_, hp⟩
+      intro c hcm
+      rw [mem_heapPush] at hcm
+      rcases hcm with hcm | rfl
+      · exact hc c hcm
+      · simp only [spmCfg, Option.map_eq_some_iff, Prod.mk.injEq] at hmk
+        obtain ⟨id, hid, _, hsz, _⟩ := hmk
+        refine ⟨l.runes, r.runes, by simp [hid], hsz.symm, ?_, ?_⟩
+        · intro p hpm hps
+          have := start_unique ps hn p l hpm hlm (by simp only at hps; rw [hps, hls])
+          rw [this]; exact List.prefix_refl _
+        · intro p hpm hps
+          have := start_unique ps hn p r hpm hrm (by simp only at hps; rw [hps, hrs])
+          rw [this]; exact List.prefix_refl _
+    · exact ⟨hn, hc, hp⟩
+  · exact ⟨hn, hc, hp⟩
+
+theorem join_inv (V : Vocab) (ps ps' : List Part) (h h' : Array Cand) (c : Cand) (hi : SpmInv V ps h)
+    (hc : c ∈ h) (hsub : ∀ x ∈ h', x ∈ h)
+    (hj : joinAt ((spmCfg V).ok c) ps c.a c.b = some ps') : SpmInv V ps' h' := by
+  obtain ⟨hn, hcs, hp⟩ := hi
+  obtain ⟨pre, p, q, rest, hps, hpa, hqb, hok, hps'⟩ := joinAt_some _ _ _ _ _ hj
+  have hpm : p ∈ ps := by rw [hps]; simp
+  have hqm : q ∈ ps := by rw [hps]; simp
+  -- the popped candidate is not stale: its two ends are exactly the strings it was created from
+  obtain ⟨l0, r0, htok, hsz, hl, hr⟩ := hcs c hc
+  have hsize : (utf8s p.runes).length + (utf8s q.runes).length = (utf8s l0).length + (utf8s r0).length := by
+    simp only [spmCfg, beq_iff_eq] at hok
+    rw [hok, hsz]
+  obtain ⟨e1, e2⟩ := prefix_size_eq l0 p.runes r0 q.runes (hl p hpm hpa) (hr q hqm hqb) hsize
+  have hmem' : ∀ z ∈ ps', z ∈ ps ∨ z = ({ start := c.a, runes := p.runes ++ q.runes } : Part) := by
+    intro z hz
+    rw [hps'] at hz
+    rw [hps]
+    simp only [List.mem_append, List.mem_cons] at hz ⊢
+    rcases hz with hz | rfl | hz
+    · exact Or.inl (Or.inl hz)
+    · exact Or.inr rfl
+    · exact Or.inl (Or.inr (Or.inr (Or.inr hz)))
+  refine ⟨?_, ?_, ?_⟩
+  · -- starts of ps' are a sublist of the starts of ps
+    have hsl : (ps'.map (·.start)).Sublist (ps.map (·.start)) := by
+      rw [hps', hps]
+      simp only [List.map_append, List.map_cons]
+      apply List.Sublist.append (List.Sublist.refl _)
+      rw [hpa]
+      exact List.Sublist.cons_cons _ (List.sublist_cons_self _ _)
+    exact hsl.nodup hn
+  · intro c' hc'
+    obtain ⟨l1, r1, ht1, hs1, hl1, hr1⟩ := hcs c' (hsub c' hc')
+    refine ⟨l1, r1, ht1, hs1, ?_, ?_⟩
+    · intro z hz hzs
+      rcases hmem' z hz with hz | rfl
+      · exact hl1 z hz hzs
+      · simp only at hzs ⊢
+        exact (hl1 p hpm (by rw [hpa]; exact hzs)).trans (List.prefix_append _ _)
+    · intro z hz hzs
+      rcases hmem' z hz with hz | rfl
+      · exact hr1 z hz hzs
+      · simp only at hzs ⊢
+        exact (hr1 p hpm (by rw [hpa]; exact hzs)).trans (List.prefix_append _ _)
+  · intro z hz
+    rcases hmem' z hz with hz | rfl
+    · exact hp z hz
+    · left; simp only; rw [e1, e2]; exact htok
+
+theorem spm_mergeLoop_inv (V : Vocab) (n f : Nat) (ps : List Part) (h : Array Cand) (hi : SpmInv V ps h) :
+    ∀ p ∈ mergeLoop (spmCfg V) n f ps h, TokOrSingle V p.runes := by
+  induction f generalizing ps h with
+  | zero => exact hi.2.2
+  | succ f ih =>
+    unfold mergeLoop
+    split
+    · exact hi.2.2
+    · rename_i c h' hpop
+      obtain ⟨hcm, hsub⟩ := heapPop_mem _ _ _ _ hpop
+      split
+      · rename_i ps' hj
+        have h1 := join_inv V ps ps' h h' c hi hcm hsub hj
+        simp only
+        apply ih
+        have h2 : SpmInv V ps' (match prevStart ps' c.a with
+            | some p => pushCand (spmCfg V) ps' h' p c.a
+            | none => h') := by
+          split
+          · exact pushCand_inv V _ _ _ _ h1
+          · exact h1
+        split
+        · exact pushCand_inv V _ _ _ _ h2
+        · exact h2
+      · apply ih
+        exact ⟨hi.1, fun x hx => hi.2.1 x (hsub x hx), hi.2.2⟩
+
+theorem initParts_ge (rs : Str) (i : Nat) : ∀ p ∈ initParts rs i, i ≤ p.start := by
+  induction rs generalizing i with
+  | nil => intro p hp; simp [initParts] at hp
+  | cons r rs ih =>
+    intro p hp
+    simp only [initParts, List.mem_cons] at hp
+    rcases hp with rfl | hp
+    · exact Nat.le_refl _
+    · have := ih (i + 1) p hp; omega
+
+theorem initParts_nodup (rs : Str) (i : Nat) : ((initParts rs i).map (·.start)).Nodup := by
+  induction rs generalizing i with
+  | nil => simp [initParts]
+  | cons r rs ih =>
+    simp only [initParts, List.map_cons, List.nodup_cons, List.mem_map, not_exists, not_and]
+    refine ⟨?_, ih (i + 1)⟩
+    intro p hp hps
+    have := initParts_ge rs (i + 1) p hp
+    omega
+
+theorem initHeap_inv (V : Vocab) (ps l : List Part) (h : Array Cand) (hi : SpmInv V ps h) :
+    SpmInv V ps (initHeap (spmCfg V) ps l h) := by
+  induction l generalizing h with
+  | nil => simpa [initHeap] using hi
+  | cons p rest ih =>
+    cases rest with
+    | nil => simpa [initHeap] using hi
+    | cons q rest =>
+      unfold initHeap
+      exact ih _ (pushCand_inv V ps h _ _ hi)
+
+/-- **SPM merge loop with the Go code's size-only staleness test: every part it leaves is a token or a
+    single rune of the input.** -/
+theorem spm_mergeAll_parts (V : Vocab) (rs : Str) :
+    ∀ p ∈ mergeAll (spmCfg V) rs, TokOrSingle V p.runes := by
+  unfold mergeAll
+  simp only
+  apply spm_mergeLoop_inv
+  apply initHeap_inv
+  refine ⟨initParts_nodup rs 0, ?_, ?_⟩
+  · intro c hc; simp at hc
+  · intro p hp
+    obtain ⟨r, _, hr⟩ := initParts_single rs 0 p hp
+    exact Or.inr ⟨r, hr⟩
 
 theorem spmParts_decode (V : Vocab) (hwf : V.Wf) (hbt : V.HasByteTokens) (ps : List Part)
     (h : ∀ p ∈ ps, (∀ r ∈ p.runes, r < 0x110000) ∧ ((V.tokId p.runes).isSome = true ∨ sepRune ∉ p.runes) ∧
@@ -600,8 +883,8 @@ theorem spmText_decode (V : Vocab) (hwf : V.Wf) (hbt : V.HasByteTokens)
     simp [spmDecode, spmDecodeTok, hs, hback, this]
   · rw [spmParts_decode V hwf hbt, mergeAll_concat, hback]
     intro p hp
-    have hP := mergeAll_all (fun u => (V.tokId u).isSome = true ∨ ∃ r, u = [r]) (spmCfg V)
-      (fun c l r h => Or.inl (spmCfg_ok V c l r h)) (t.map spaceToSep) (fun r _ => Or.inr ⟨r, rfl⟩) p hp
+    have hP : (V.tokId p.runes).isSome = true ∨ ∃ r, p.runes = [r] :=
+      spm_mergeAll_parts V (t.map spaceToSep) p hp
     have hcat := mergeAll_concat (spmCfg V) (t.map spaceToSep)
     obtain ⟨a, b, hab⟩ := mem_flatten_split _ p.runes (List.mem_map.mpr ⟨p, hp, rfl⟩)
     unfold concatParts at hcat
@@ -645,5 +928,187 @@ theorem spmText_decode (V : Vocab) (hwf : V.Wf) (hbt : V.HasByteTokens)
     · intro htok
       apply hnolit _ _ _ ht
       rw [map_space_roundtrip _ h32]; exact htok
+
+end OllamaVerif.Tok
+
+namespace OllamaVerif.Tok
+
+/-! ## every occurrence of a special literal is consumed -/
+
+/-- `p` occurs in `t` as a contiguous piece -/
+def Occurs (p t : Str) : Prop := ∃ a b, t = a ++ p ++ b
+
+theorem Occurs.trans {q u t : Str} (h : Occurs q u) (a b : Str) (ht : t = a ++ u ++ b) : Occurs q t := by
+  obtain ⟨c, d, rfl⟩ := h
+  exact ⟨a ++ c, d ++ b, by rw [ht]; simp [List.append_assoc]⟩
+
+theorem isPrefixOf_append (p b : Str) : isPrefixOf p (p ++ b) = true := by
+  induction p with
+  | nil => simp [isPrefixOf]
+  | cons a p ih => simp [isPrefixOf, ih]
+
+theorem indexOf_none (s pat : Str) (h : indexOf s pat = none) : ¬ Occurs pat s := by
+  induction s with
+  | nil =>
+    unfold indexOf at h
+    split at h
+    · cases h
+    · rename_i hp
+      rintro ⟨a, b, hab⟩
+      have h1 : a = [] ∧ pat = [] ∧ b = [] := by
+        have := congrArg List.length hab
+        simp at this
+        refine ⟨?_, ?_, ?_⟩ <;> apply List.eq_nil_of_length_eq_zero <;> omega
+      rw [h1.2.1] at hp
+      simp [isPrefixOf] at hp
+  | cons c s ih =>
+    unfold indexOf at h
+    split at h
+    · cases h
+    · rename_i hp
+      simp only [Option.map_eq_none_iff] at h
+      rintro ⟨a, b, hab⟩
+      cases a with
+      | nil =>
+        simp only [List.nil_append] at hab
+        rw [hab] at hp
+        exact hp (isPrefixOf_append pat b)
+      | cons a0 a' =>
+        simp only [List.cons_append, List.cons.injEq] at hab
+        exact ih h ⟨a', b, hab.2⟩
+
+theorem indexOf_min (s pat : Str) (i : Nat) (h : indexOf s pat = some i) :
+    ∀ a b, s = a ++ pat ++ b → i ≤ a.length := by
+  induction s generalizing i with
+  | nil =>
+    intro a b hab
+    unfold indexOf at h
+    split at h
+    · cases h; omega
+    · cases h
+  | cons c s ih =>
+    intro a b hab
+    unfold indexOf at h
+    split at h
+    · cases h; omega
+    · rename_i hp
+      simp only [Option.map_eq_some_iff] at h
+      obtain ⟨j, hj, rfl⟩ := h
+      cases a with
+      | nil =>
+        simp only [List.nil_append] at hab
+        rw [hab] at hp
+        exact absurd (isPrefixOf_append pat b) hp
+      | cons a0 a' =>
+        simp only [List.cons_append, List.cons.injEq] at hab
+        have := ih j hj a' b hab.2
+        simp; omega
+
+theorem splitSpecial_text_infix (sp : Special) (f : Nat) (s : Str) :
+    ∀ u, Frag.text u ∈ splitSpecial sp f s → ∃ a b, s = a ++ u ++ b := by
+  induction f generalizing s with
+  | zero => intro u hu; simp [splitSpecial] at hu; subst hu; exact ⟨[], [], by simp⟩
+  | succ f ih =>
+    intro u hu
+    unfold splitSpecial at hu
+    split at hu
+    · simp at hu; subst hu; exact ⟨[], [], by simp⟩
+    · rename_i i hi
+      have hs := indexOf_spec s sp.lit i hi
+      simp only [List.mem_append] at hu
+      rcases hu with (hu | hu) | hu
+      · split at hu
+        · simp at hu; subst hu
+          exact ⟨[], sp.lit ++ s.drop (i + sp.lit.length), by simpa [List.append_assoc] using hs⟩
+        · simp at hu
+      · simp at hu
+      · split at hu
+        · simp at hu
+        · obtain ⟨a, b, hab⟩ := ih _ u hu
+          refine ⟨s.take i ++ sp.lit ++ a, b, ?_⟩
+          calc s = s.take i ++ sp.lit ++ s.drop (i + sp.lit.length) := hs
+            _ = s.take i ++ sp.lit ++ (a ++ u ++ b) := by rw [← hab]
+            _ = _ := by simp [List.append_assoc]
+
+theorem splitSpecial_no_occ (sp : Special) (hne : sp.lit ≠ []) (f : Nat) (s : Str) (hf : s.length < f) :
+    ∀ u, Frag.text u ∈ splitSpecial sp f s → ¬ Occurs sp.lit u := by
+  have hpos : 0 < sp.lit.length := List.length_pos_iff.mpr hne
+  induction f generalizing s with
+  | zero => omega
+  | succ f ih =>
+    intro u hu
+    unfold splitSpecial at hu
+    split at hu
+    · rename_i hnone
+      simp at hu; subst hu
+      exact indexOf_none _ _ hnone
+    · rename_i i hi
+      have hs := indexOf_spec s sp.lit i hi
+      have hlen := congrArg List.length hs
+      simp only [List.length_append, List.length_take, List.length_drop] at hlen
+      simp only [List.mem_append] at hu
+      rcases hu with (hu | hu) | hu
+      · split at hu
+        · simp at hu; subst hu
+          rintro ⟨a, b, hab⟩
+          have hmin := indexOf_min s sp.lit i hi a (b ++ s.drop i) (by
+            conv => lhs; rw [← List.take_append_drop i s]
+            rw [hab]; simp [List.append_assoc])
+          have := congrArg List.length hab
+          simp only [List.length_append, List.length_take] at this
+          omega
+        · simp at hu
+      · simp at hu
+      · split at hu
+        · simp at hu
+        · apply ih _ _ u hu
+          simp only [List.length_drop]
+          omega
+
+/-- no text fragment contains the literal `q` -/
+def NoOcc (q : Str) (frs : List Frag) : Prop := ∀ u, Frag.text u ∈ frs → ¬ Occurs q u
+
+theorem splitFrags_text (sp : Special) (frs : List Frag) (u : Str) (h : Frag.text u ∈ splitFrags sp frs) :
+    ∃ t, Frag.text t ∈ frs ∧ Frag.text u ∈ splitSpecial sp (t.length + 1) t := by
+  simp only [splitFrags, List.mem_flatMap] at h
+  obtain ⟨g, hg, hu⟩ := h
+  cases g with
+  | text t => exact ⟨t, hg, hu⟩
+  | special q => simp at hu
+
+theorem splitFrags_noOcc_self (sp : Special) (hne : sp.lit ≠ []) (frs : List Frag) :
+    NoOcc sp.lit (splitFrags sp frs) := by
+  intro u hu
+  obtain ⟨t, _, hut⟩ := splitFrags_text sp frs u hu
+  exact splitSpecial_no_occ sp hne _ t (by omega) u hut
+
+theorem splitFrags_noOcc_keep (sp : Special) (q : Str) (frs : List Frag) (h : NoOcc q frs) :
+    NoOcc q (splitFrags sp frs) := by
+  intro u hu hocc
+  obtain ⟨t, ht, hut⟩ := splitFrags_text sp frs u hu
+  obtain ⟨a, b, hab⟩ := splitSpecial_text_infix sp _ t u hut
+  exact h t ht (hocc.trans a b hab)
+
+theorem fragments_noOcc (specials : List Special) (hne : ∀ q ∈ specials, q.lit ≠ []) (s : Str) :
+    ∀ q ∈ specials, NoOcc q.lit (fragments specials s) := by
+  unfold fragments
+  have : ∀ (sps done : List Special) (frs : List Frag), (∀ q ∈ sps, q.lit ≠ []) →
+      (∀ q ∈ done, NoOcc q.lit frs) →
+      ∀ q ∈ done ++ sps, NoOcc q.lit (sps.foldl (fun frs sp => splitFrags sp frs) frs) := by
+    intro sps
+    induction sps with
+    | nil => intro done frs _ h q hq; simp at hq; exact h q hq
+    | cons sp sps ih =>
+      intro done frs hne' h q hq
+      simp only [List.foldl_cons]
+      have h' : ∀ q ∈ done ++ [sp], NoOcc q.lit (splitFrags sp frs) := by
+        intro q hq
+        simp only [List.mem_append, List.mem_singleton] at hq
+        rcases hq with hq | rfl
+        · exact splitFrags_noOcc_keep sp q.lit frs (h q hq)
+        · exact splitFrags_noOcc_self q (hne' q (by simp)) frs
+      exact ih (done ++ [sp]) _ (fun x hx => hne' x (List.mem_cons_of_mem _ hx)) h' q (by simpa using hq)
+  intro q hq
+  exact this specials [] [.text s] hne (by simp) q (by simpa using hq)
 
 end OllamaVerif.Tok
